@@ -214,7 +214,7 @@ func c11Procedures(c *fw.Case) (o fw.Outcome) {
 	}
 	for _, v := range pr.Violations {
 		switch v.Key { // identity clauses of the trace specification; anything else is C01 / C02 business
-		case "suci", "suci-plmn", "dereg-identity", "ng-setup-plmn", "uli-plmn":
+		case "suci", "suci-plmn", "suci-supi", "dereg-identity", "ng-setup-plmn", "uli-plmn":
 			o.Fail("procedure-identity:"+v.Key, "subscriber %s: %s\n conversation:%s", cfg.IMSI, v.Msg, pr.Conversation)
 			return
 		}
